@@ -2,7 +2,6 @@
 //! isolated worker process with an allocation meter; the parent attributes a dead or silent
 //! worker to the input it had announced.
 
-use std::sync::OnceLock;
 
 use simcore::iso::{danger_zone, IsoArm};
 use simcore::{Arm, CheckSpec, Chooser, Ctx, RunInfo, Tier};
@@ -140,13 +139,13 @@ pub fn enum_mutation(kind: EnumKind, base: &dyn Base, item: u64) -> (String, Vec
 
 struct EnumArm {
     kind: EnumKind,
-    index: OnceLock<EnumIndex>,
+    index: simcore::Keyed<(bool, u64), EnumIndex>,
     quick_bases: usize,
 }
 
 impl EnumArm {
     fn idx(&self, tier: Tier, seed: u64) -> &EnumIndex {
-        self.index.get_or_init(|| enum_sizes(self.kind, seed, if tier == Tier::Quick { self.quick_bases } else { usize::MAX }))
+        self.index.get_or_init((tier == Tier::Quick, seed), || enum_sizes(self.kind, seed, if tier == Tier::Quick { self.quick_bases } else { usize::MAX }))
     }
 }
 
@@ -313,24 +312,24 @@ impl Arm for SampledOvf {
 pub fn spec() -> CheckSpec {
     let iso = |a: Box<dyn Arm>| -> Box<dyn Arm> { Box::new(IsoArm { check_id: "C06", inner: a, timeout_s: 60, exe_env: None, alias: None }) };
     let arms: Vec<Box<dyn Arm>> = vec![
-        iso(Box::new(EnumArm { kind: EnumKind::Counts, index: OnceLock::new(), quick_bases: usize::MAX })),
-        iso(Box::new(EnumArm { kind: EnumKind::Coordinated, index: OnceLock::new(), quick_bases: usize::MAX })),
-        iso(Box::new(EnumArm { kind: EnumKind::Truncations, index: OnceLock::new(), quick_bases: usize::MAX })),
-        iso(Box::new(EnumArm { kind: EnumKind::BitFlips, index: OnceLock::new(), quick_bases: 12 })),
+        iso(Box::new(EnumArm { kind: EnumKind::Counts, index: simcore::Keyed::new(), quick_bases: usize::MAX })),
+        iso(Box::new(EnumArm { kind: EnumKind::Coordinated, index: simcore::Keyed::new(), quick_bases: usize::MAX })),
+        iso(Box::new(EnumArm { kind: EnumKind::Truncations, index: simcore::Keyed::new(), quick_bases: usize::MAX })),
+        iso(Box::new(EnumArm { kind: EnumKind::BitFlips, index: simcore::Keyed::new(), quick_bases: 12 })),
         iso(Box::new(SampledArm)),
         iso(Box::new(FreshContextArm)),
         // the same inputs in the overflow-checking build: arithmetic overflow that release builds
         // wrap silently shows up as a panic there
         Box::new(IsoArm {
             check_id: "C06",
-            inner: Box::new(EnumArm { kind: EnumKind::Counts, index: OnceLock::new(), quick_bases: usize::MAX }),
+            inner: Box::new(EnumArm { kind: EnumKind::Counts, index: simcore::Keyed::new(), quick_bases: usize::MAX }),
             timeout_s: 60,
             exe_env: Some("WFSIM_OVF"),
             alias: Some("all-count-fields-overflow-checked"),
         }),
         Box::new(IsoArm {
             check_id: "C06",
-            inner: Box::new(EnumArm { kind: EnumKind::Coordinated, index: OnceLock::new(), quick_bases: usize::MAX }),
+            inner: Box::new(EnumArm { kind: EnumKind::Coordinated, index: simcore::Keyed::new(), quick_bases: usize::MAX }),
             timeout_s: 60,
             exe_env: Some("WFSIM_OVF"),
             alias: Some("all-coordinated-edits-overflow-checked"),
